@@ -541,6 +541,28 @@ func runC10(c *Ctx) {
 			}
 			rpt, ok := mu.Value.(*ssa.Alloc)
 			if !ok {
+				// a result variable that holds the report or the "not found"
+				// nil (the two stores of the pinned tree folded into one)
+				if ph, isPhi := mu.Value.(*ssa.Phi); isPhi {
+					var one *ssa.Alloc
+					clean := true
+					for _, e := range ph.Edges {
+						if ir.IsNil(e) {
+							continue
+						}
+						al, isAl := e.(*ssa.Alloc)
+						if !isAl || (one != nil && one != al) {
+							clean = false
+							break
+						}
+						one = al
+					}
+					if clean && one != nil {
+						rpt, ok = one, true
+					}
+				}
+			}
+			if !ok {
 				return
 			}
 			n++
@@ -601,7 +623,14 @@ func runC10(c *Ctx) {
 			}, token.LSS)
 			check(len(odd) == 0, "output index compared with len(txOuts) by "+join(odd))
 			if len(odd) == 0 {
-				c.guarded(fi, g, 1, "initialTxns[op] = &SpendReport{Output: txOuts[op.Index]}", []ssa.Instruction{in}, 1, gDominate)
+				// (when the store is shared with the "not found" nil, the
+				// guarded effect is the building of the report, where
+				// txOuts[op.Index] is read)
+				eff := ssa.Instruction(in)
+				if _, direct := mu.Value.(*ssa.Alloc); !direct {
+					eff = rpt
+				}
+				c.guarded(fi, g, 1, "initialTxns[op] = &SpendReport{Output: txOuts[op.Index]}", []ssa.Instruction{eff}, 1, gDominate)
 			}
 		})
 		sort.Strings(bad)
